@@ -126,4 +126,5 @@ def main():
           "failures": rest[:40], "known": hit})
 
 
-main()
+if __name__ == "__main__":
+    main()
